@@ -444,3 +444,48 @@ def make_sched_storage(sched, path, lockreg, mutation_log=None, supports_mmap=Tr
             return st.create()
 
     return SchedStorage(path, supports_mmap=supports_mmap)
+
+
+def make_sched_ram_storage(sched):
+    """RamStorage subclass instance whose calls are scheduling points (its
+    lock objects come from whoosh.filedb.filestore.Lock, patched by the
+    driver to SchedThreadLock)."""
+    from whoosh.filedb.filestore import RamStorage
+
+    class SchedRamStorage(RamStorage):
+        def create_file(self, name, **kw):
+            sched.point(("create_file", name))
+            f = RamStorage.create_file(self, name, **kw)
+            orig_close = f.close
+
+            def close():
+                sched.point(("close_file", name))
+                return orig_close()
+            f.close = close
+            return f
+
+        def open_file(self, name, *a, **kw):
+            sched.point(("open_file", name))
+            return RamStorage.open_file(self, name, *a, **kw)
+
+        def list(self):
+            sched.point(("list", ""))
+            return RamStorage.list(self)
+
+        def file_exists(self, name):
+            sched.point(("file_exists", name))
+            return RamStorage.file_exists(self, name)
+
+        def file_length(self, name):
+            sched.point(("file_length", name))
+            return RamStorage.file_length(self, name)
+
+        def delete_file(self, name):
+            sched.point(("delete_file", name))
+            return RamStorage.delete_file(self, name)
+
+        def rename_file(self, a, b, safe=False):
+            sched.point(("rename_file", b))
+            return RamStorage.rename_file(self, a, b, safe=safe)
+
+    return SchedRamStorage()
